@@ -1055,6 +1055,11 @@ func c18(args []string) int {
 			Seeds: seeds("W3 SW W1 SW VOPEN", "W3 SW U SW W1 SW VOPEN VTTSET")},
 		{Name: "time-travel/512-none/writes-during-time-travel", Cfg: n512, Alphabet: sub("VTTSET VTTRESET U W1 SW VPOLL"), Depth: d(3, 5),
 			Seeds: seeds("W3 SW W1 SW VOPEN", "W3 SW U SW W1 SW VOPEN VTTSET")},
+		// growth that a poll staged under a held lock (merged at unlock), then a shrink to a size between the size at
+		// open and the grown size: the shrink must still be recognised as one
+		{Name: "held-lock/512-none/growth-under-lock-then-shrink", Cfg: n512, Alphabet: sub("DL VAC SW VPOLL W1"), Depth: d(4, 5),
+			Seeds: seeds("W3 SW VOPEN VLOCK W3 SW VPOLL VUNLOCK", "W3 SW VOPEN VLOCK W3 W3 SW VPOLL VUNLOCK D", "W3 SW VOPEN VLOCK W3 SW VPOLL W3 SW VPOLL VUNLOCK",
+				"W3 SW VOPEN VLOCK W3 SW VPOLL W3 SW VPOLL VUNLOCK DL VAC SW", "W3 SW VOPEN VLOCK W3 W3 SW VPOLL VUNLOCK DL VAC SW")},
 		// a target time set INSIDE an open read transaction that has already seen a poll stage newer files
 		{Name: "time-travel/512-none/set-under-held-lock", Cfg: n512, Alphabet: sub("W1 U SW VPOLL VTTSET VUNLOCK VTTRESET"), Depth: d(4, 5),
 			Seeds: seeds("W3 SW W1 SW VOPEN VLOCK", "W3 SW U SW W1 SW VOPEN VLOCK W1 SW VPOLL", "W3 SW W3 SW VOPEN VLOCK D VAC SW VPOLL")},
